@@ -6,10 +6,11 @@ import PoxModel.Proofs.Addr.IP6
 import PoxModel.Proofs.Addr.IP6RT
 import PoxModel.Proofs.Addr.Dpid
 import PoxModel.Proofs.Addr.Canon
+import PoxModel.Proofs.Addr.Cidr
 import PoxModel.Proofs.Addr.Order
 import PoxModel.Proofs.Addr.Eth
 import PoxModel.Proofs.Addr.Spec
 /-! Helper lemmas for C16 (address types), split by topic under `Proofs/Addr/`:
 `Mask` (netmask loop, membership), `IP4` (byte orders), `Text` (digits, `int()`, split/join/count), `Runs` (zero-run choice,
 checked on all 2^8 patterns), `IP6`/`IP6RT` (IPv6 print→parse), `Dpid`, `Canon` (RFC 5952 shape, mapped addresses, IPv6
-masks), `Order` (byte-wise order), `Eth` (Ethernet text forms), `Spec` (RFC 4291 text grammar).  Core only. -/
+masks), `Cidr` (`parse_cidr` text forms), `Order` (byte-wise order), `Eth` (Ethernet text forms), `Spec` (RFC 4291 text grammar).  Core only. -/
